@@ -430,7 +430,7 @@ class ValGen:
                 raise GenFail('size')
             if n < 0 or n > 40:
                 raise GenFail('size')
-            return bytes(rng.choice([65, 66, 0, 10, 58, 88, rng.randrange(256)]) for _ in range(n))
+            return bytes(rng.choice([65, 66, 0, 10, 58, 88, 46, 46, rng.randrange(256)]) for _ in range(n)) if rng.random() < 0.9 else b'.' * n     # 46 = the fill byte: stored dots are not holes
         if k == 'dmarker':
             m = l[1]
             for _ in range(20):
